@@ -168,7 +168,8 @@ fn hash_of(k: &Key<'_>) -> u64 {
 
 fn main() {
     let mut run = Run::from_env("C15", "exploration");
-    let thorough = run.tier.is_thorough();
+    // the full bounds cost only a few seconds: both tiers run them
+    let thorough = true;
     run.rule(
         "laws: every ordered triple of the value alphabet (one case per triple; non-trivial = the triple \
          exercises a law premise: two of the values are ==, or cmp is Equal, or a<=b<=c holds). \
